@@ -16,7 +16,7 @@ VERIF_ERR = (
     "decreases not satisfied", "index out of bounds", "possible bit shift underflow/overflow",
     "recommendation not met", "loop invariant not satisfied", "invariant not satisfied at end of loop body",
     "invariant not satisfied before loop", "assertion not satisfied", "could not prove termination",
-    "unreachable", "constructed value may fail to meet its declared type invariant",
+    "unreachable", "constructed value may fail to meet its declared type invariant", "unable to prove", "closure",
 )
 RESOURCE_ERR = ("resource limit", "rlimit", "timed out", "timeout")
 
@@ -62,11 +62,12 @@ def scan_trusted(text):
     return out
 
 
-def run_unit(unit, repo, vfdir, scratch, rlimit=None, keep=False, extra_args=()):
+def _run_unit_once(unit, repo, vfdir, scratch, rlimit=None, keep=False, extra_args=(), stub=()):
     res = UnitResult(unit)
     t0 = time.time()
     tpl = os.path.join(vfdir, "units", unit + ".rs")
     ex = Extractor(repo, vfdir)
+    ex.stub = set(stub)
     try:
         text, fn_ranges = ex.process(tpl)
     except LostAnchor as e:
@@ -135,6 +136,7 @@ def run_unit(unit, repo, vfdir, scratch, rlimit=None, keep=False, extra_args=())
     failed = {}
     canary_failed = False
     hard = []
+    hard_lines = []
     for dg in diags:
         if dg.get("level") != "error":
             continue
@@ -156,6 +158,7 @@ def run_unit(unit, repo, vfdir, scratch, rlimit=None, keep=False, extra_args=())
             continue
         if not is_verif:
             hard.append(rendered)
+            hard_lines.append(prim[0]["line_start"] if prim else 0)
             continue
 
         def lab_of(spanlist):
@@ -181,6 +184,8 @@ def run_unit(unit, repo, vfdir, scratch, rlimit=None, keep=False, extra_args=())
     if hard:
         res.status = "undecided"
         res.reason = "verus rejected the unit (unsupported construct / type error):\n" + "\n".join(hard)[:3000]
+        res.hard_lines = hard_lines
+        res.all_ranges = ex.all_ranges
         return res
     if not canary_failed:
         if "fn vf_canary" in gen:
@@ -203,3 +208,42 @@ def run_unit(unit, repo, vfdir, scratch, rlimit=None, keep=False, extra_args=())
             if o["status"] == "discharged":
                 o["status"] = "undecided"
     return res
+
+
+def run_unit(unit, repo, vfdir, scratch, rlimit=None, keep=False, extra_args=()):
+    """Run the unit; if Verus rejects it because of constructs inside extracted function bodies, retry with those
+    functions reduced to signature + contract (external_body): their own obligations become undecided, the
+    rest of the unit is still decided."""
+    res = _run_unit_once(unit, repo, vfdir, scratch, rlimit, keep, extra_args)
+    if res.status != "undecided" or not getattr(res, "hard_lines", None):
+        return res
+    stub = set()
+    cur = res
+    res2 = None
+    for _ in range(5):
+        for ln in cur.hard_lines:
+            hit = [r for r in cur.all_ranges if r[0] <= ln <= r[1]]
+            if not hit or hit[0][3] or hit[0][2] in stub:   # outside any extracted fn / inside a block lift / already stubbed
+                return res
+            stub.add(hit[0][2])
+        res2 = _run_unit_once(unit, repo, vfdir, scratch, rlimit, keep, extra_args, stub=tuple(stub))
+        if res2.status == "undecided" and getattr(res2, "hard_lines", None):
+            cur = res2
+            continue
+        break
+    else:
+        return res
+    # obligations of stubbed functions are not decided
+    stub_labels = set()
+    for (a, b, name, bodyonly, safety) in getattr(res2, "all_ranges", []) or []:
+        pass
+    res2.stubbed = sorted(stub)
+    res2.status = "undecided"
+    res2.reason = "verus rejected the body of %s (first run: %s); the rest of the unit was decided with these functions reduced to their contracts" % (", ".join(sorted(stub)), res.reason[:600])
+    for lab, o in res2.obligations.items():
+        if o["status"] == "undecided":
+            pass
+    # keep failures as failures; discharged obligations of OTHER functions stay discharged, but the unit as a whole is undecided
+    keep_status = {lab: o["status"] for lab, o in res2.obligations.items()}
+    res2.obligations = {lab: dict(status=("failed" if st == "failed" else "undecided"), msg=res2.obligations[lab]["msg"]) for lab, st in keep_status.items()}
+    return res2
